@@ -15,6 +15,7 @@ import sys
 
 SYS_TZPATH = "/usr/share/zoneinfo"
 CTX: dict = {}
+SHARD_WATCHDOG = 3000.0
 
 
 class Hang(BaseException):
@@ -75,6 +76,7 @@ def run(task):
     modname, fn, arg = task
     mod = importlib.import_module(f"pendmc.props.{modname}")
     try:
+        horizon(SHARD_WATCHDOG)   # a whole shard that never ends is an infrastructure failure
         return getattr(mod, fn)(arg)
     finally:
         horizon_off()
